@@ -1,4 +1,5 @@
 import MiniconfVerif.Lemmas.MqttStep
+import MiniconfVerif.Lemmas.GenTieMqtt
 
 /-! # C07 — MQTT Get/Set/List requests are answered once, correctly, and correlated
 
@@ -101,5 +102,32 @@ example : listPump "r".toList (some [1]) ["/a".toList, "/b".toList] 5 =
     ([], [.pub "r".toList (.text "/a".toList) .continue (some [1]), .pub "r".toList (.text "/b".toList) .continue (some [1]),
           .pub "r".toList (.text []) .ok (some [1])], true) := by decide +kernel
 example : topicPath "p".toList "p/settings/a".toList = some "/a".toList := by decide +kernel
+
+open MiniconfVerif.Gen MiniconfVerif.Gen.Core MiniconfVerif.Gen.Mqtt MiniconfVerif.GenTie in
+/-- **The request handler as translated from miniconf_mqtt/src/lib.rs** (`Gen/Mqtt.lean`, regenerated on every run: the
+closure `poll()` hands to minimq, with every call into minimq / the settings tree answered by an `Env`, and every
+publication it asks for appended to an action list) **is the model's `handleMsg`** — on which `set_answer`, `get_answer`,
+`get_error`, `list_accepted`, `busy_refused`, `foreign_topic_ignored` (C07), `changed_flag`, `long_props_refused`,
+`handleMsg_no_panic` (C14) are proved — for the environment the model assumes (`pubGetOf`: no free slot ⇒ `NotReady`
+before anything is serialized, otherwise the outcome of serializing the value; `mpTryOf`: response topic, then correlation
+data; `setResOf`).  Same protocol state and pending request afterwards, same publications in the same order (texts, response
+codes, response topic / correlation data), same report to `update()`, panic exactly at the model's panic marker
+(`m.root(path).unwrap()` on a path `root()` refuses). -/
+theorem source_handler_is_model (ops : SettingsOps σ) (pfx : Str) (c : Client) (s : σ) (m : Req) (canPub fits : Bool)
+    (envG : Except (PubErr Unit) Unit) (envS : Except (Error Unit) Nat)
+    (hG : ∀ path, topicPath pfx m.topic = some path →
+      pubGetOf canPub (ops.get s path) fits (path.count '/') = some envG)
+    (hS : ∀ path, topicPath pfx m.topic = some path → setResOf (ops.set s path m.payload).1 = some envS) :
+    match poll_closure (envOf ops ((topicPath pfx m.topic).getD []) m envG envS) pfx
+        { st := stToGen c.st, pending := c.pending, acts := [] } m.topic m.payload with
+    | .val (cl, ret) =>
+      handleMsg ops pfx c s m canPub fits =
+        ({ c with st := stOfGen cl.st, pending := cl.pending },
+         (match topicPath pfx m.topic with
+          | some p => if m.payload.isEmpty then s else (ops.set s p m.payload).2
+          | none => s),
+         outsOfActs m canPub (getTxtOf (ops.get s ((topicPath pfx m.topic).getD [])) envG) cl.acts, retOfGen ret)
+    | .panic _ => (handleMsg ops pfx c s m canPub fits).2.2.2 = .panic :=
+  poll_closure_tie ops pfx c s m canPub fits envG envS hG hS
 
 end MiniconfVerif.C07
